@@ -110,7 +110,7 @@ var scenarios = []scenario{
 		lb := x.do(rLockNew(b.Fh, b.T, b.Q, 5, c, "l1", 2, "W", 0, 1))
 		r := rLock(a.Fh, la.T, la.Q, 3, "W", 2, 3)
 		la2 := x.do(r)
-		x.do(r)                                   // true replay
+		x.do(r)                                     // true replay
 		x.do(rLock(b.Fh, lb.T, lb.Q, 3, "W", 2, 3)) // same lock seqid, the other file's lock state id
 		x.do(rLocku(a.Fh, la2.T, la2.Q, 3, 2, 3))   // same lock seqid, other operation
 		x.do(rLock(a.Fh, la.T, la.Q+1, 3, "W", 2, 3))
@@ -170,7 +170,7 @@ var scenarios = []scenario{
 		x.do(rLockNew(b.Fh, b.T, b.Q, 3, c2, "l1", 1, "W", 0, 1)) // denied
 		x.e.tick(6)
 		x.do(rRenew(c2))
-		x.e.tick(6) // c1's lease is over, c2's is not
+		x.e.tick(6)                                               // c1's lease is over, c2's is not
 		x.do(rLockNew(b.Fh, b.T, b.Q, 4, c2, "l1", 1, "W", 0, 1)) // granted now
 		x.do(rIO("READ", a.Fh, "reg", a.T, a.Q, false))
 		x.do(rLock(a.Fh, l.T, l.Q, 2, "W", 0, 1))
@@ -431,7 +431,7 @@ var scenarios = []scenario{
 		x.do(rLock(b.Fh, l.T, l.Q, 2, "W", 2, 3))
 		x.do(rLock(a.Fh, l.T, l.Q+1, 2, "W", 2, 3))
 		x.do(rLock(a.Fh, l.T, l.Q-1, 2, "W", 2, 3))
-		x.do(rLocku(a.Fh, a.T, a.Q, 3, 0, 1)) // an open state id is no lock state id
+		x.do(rLocku(a.Fh, a.T, a.Q, 3, 0, 1))  // an open state id is no lock state id
 		x.do(rSid("CLOSE", a.Fh, l.T, l.Q, 6)) // and vice versa
 		x.do(rDowngrade(b.Fh, a.T, a.Q, 6, 1))
 		x.do(rSid("OPEN_CONFIRM", a.Fh, a.T, a.Q+1, 6))
